@@ -26,6 +26,7 @@
 //	nw.SetDelay(a, b, d)                // every write a->b and b->a sleeps d first (0 = off)
 //	nw.SetDelayOneWay(a, b, d)          // only writes a->b sleep d first
 //	nw.DropNode(n)                      // close every connection from or to n (used by crash)
+//	nw.CloseAccepted(n, peer)           // n closes the connections it accepted from peer: peer reads a clean EOF
 //	nw.Blocked(a, b)                    // is a->b cut?
 //	nw.Close()                          // close all listeners and connections
 //
@@ -488,6 +489,26 @@ func (n *Network) DropNode(node string) {
 	kill := n.killLocked(func(l, p string) bool { return l == node || p == node })
 	n.mu.Unlock()
 	kill()
+}
+
+// CloseAccepted closes, on node's side only, every connection that node accepted
+// from peer. The dialing side sees a clean end of stream (FIN -> io.EOF on its
+// next read) instead of a local "use of closed network connection"; connectivity
+// is untouched, so new dials succeed. It returns the number of connections closed.
+func (n *Network) CloseAccepted(node, peer string) int {
+	n.mu.Lock()
+	var victims []*Conn
+	for c := range n.conns {
+		if !c.dialed && c.local == node && c.peerLocked() == peer {
+			victims = append(victims, c)
+		}
+	}
+	n.mu.Unlock()
+	for _, c := range victims {
+		n.nConnKilled.Add(1)
+		c.Close()
+	}
+	return len(victims)
 }
 
 // Blocked reports whether traffic a->b is cut.
